@@ -40,6 +40,18 @@ PROPS = {
         "level_note": "trusted: LunarCal.tla label rules, TLC, harness logging; which month is leap is bound from LunarYear::get_leap_month (C04 relates it to the astronomy)",
         "technique": "TLA+ month-clock model checked with TLC + trace validation of month walks",
     },
+    "C06": {
+        "title": "every day belongs to exactly one solar term: ordered, evenly spaced, consistent",
+        "mc": {"quick": [{"module": "MC_TermClock", "cfg": "MC_TermClock.cfg", "workers": 4}]},
+        "rule": "all 24 terms of sampled years (quick: edges of the regimes 1-6, 640-643, 1580-84, 1644-46, 1959-62, 7270-80, 8714-18, 9995-99 + 50 seeded triples; thorough: every (year 1..9999, index)) with next(+-1), next(n) vs from_index for 10 step counts, name lookup, parity; "
+                "civil day walks (catalogue + 40 seeded windows; thorough every day) with the assigned term, day index, term day and next term day; instants one second before/at/after term instants and random instants inside terms. "
+                "Non-trivial: year carries (index 0/23), term days and days with index >= 14, boundary instants",
+        "exhaustive": {"quick": False, "thorough": True},
+        "assumptions": ["term instants are the implementation's own answers (C05 relates them to the astronomy); the spec relates them to each other and to the day/instant assignment"],
+        "level_text": "TLC checks the term clock with free spacing (MC_TermClock: latest-term-on-or-before assignment makes TermTick the only step, day index = days since term day <= 16, stepping = construction in both directions) and validates the real code's terms (order, 14.6-15.8 day gaps, year carry, next(n) = from_index(i+n)), the day->term mapping of day walks (bracketing by the next term's day, TermTick on every adjacent pair) and the instant->term mapping at +-1 s around every term instant; thorough covers all 239,976 terms and every civil date",
+        "level_note": "trusted: TermClock.tla, Civil.tla day numbers, TLC, harness logging; instants are logged as (day number, second of day) from SolarTerm::get_julian_day().get_solar_time()",
+        "technique": "TLA+ term-clock model checked with TLC + trace validation of term, day and instant views",
+    },
     "C07": {
         "title": "day pillar and weekday advance one step per civil day from fixed anchors",
         "mc": {"quick": [{"module": "MC_DayClock", "cfg": "MC_DayClock.cfg", "workers": 6}]},
